@@ -191,7 +191,9 @@ def parse_rvalue(s):
 
 def _rvalue(s):
     if s.startswith('&raw const ') or s.startswith('&raw mut '):
-        return ('rawptr', parse_place(s.split(' ', 2)[2]))
+        rest = s.split(' ', 2)[2]
+        rest = re.sub(r'^\(fake\) ', '', rest)      # `&raw const (fake) (*_x)`: the pointer slice patterns take the length from
+        return ('rawptr', parse_place(rest))
     if s.startswith('&mut '):
         return ('ref', parse_place(s[5:]), True)
     if s.startswith('&'):
